@@ -17,6 +17,7 @@ fn main() {
     match args[0].as_str() {
         "stream-replay" => stream::cmd_replay(rest),
         "stream-trace" => stream::cmd_trace(rest),
+        "stream-tamper" => stream::cmd_tamper(rest),
         "aead-roundtrip" => aead::cmd_roundtrip(rest),
         "aead-tamper" => aead::cmd_tamper(rest),
         "inc-splits" => inchash::cmd_splits(rest),
